@@ -75,10 +75,11 @@ type TermTable struct {
 	tru   *Term
 	fls   *Term
 	epoch int32
+	active map[int32]bool // variables introduced on the current path
 }
 
 func NewTermTable() *TermTable {
-	tt := &TermTable{tab: map[termKey]*Term{}, vmap: map[string]*Term{}}
+	tt := &TermTable{tab: map[termKey]*Term{}, vmap: map[string]*Term{}, active: map[int32]bool{}}
 	tt.fls = tt.mk(OpConst, 0, nil, nil, nil, 0)
 	tt.tru = tt.mk(OpConst, 0, nil, nil, nil, 1)
 	return tt
@@ -133,16 +134,16 @@ func (tt *TermTable) Bool(b bool) *Term {
 }
 
 func (tt *TermTable) Var(name string, w uint8) *Term {
-	if t, ok := tt.vmap[name]; ok {
-		if t.w != w {
-			panic("var width mismatch " + name)
-		}
+	key := fmt.Sprintf("%s/%d", name, w)
+	if t, ok := tt.vmap[key]; ok {
+		tt.active[t.id] = true
 		return t
 	}
 	t := tt.mk(OpVar, w, nil, nil, nil, uint64(len(tt.vars)))
 	t.name = name
 	tt.vars = append(tt.vars, t)
-	tt.vmap[name] = t
+	tt.vmap[key] = t
+	tt.active[t.id] = true
 	return t
 }
 
@@ -154,90 +155,113 @@ func sext(v uint64, w uint8) int64 {
 	return int64(v<<sh) >> sh
 }
 
+type rng struct{ lo, hi uint64 }
+
 func (tt *TermTable) computeRange(t *Term) {
+	var ra, rb, rc rng
+	if t.a != nil {
+		ra = rng{t.a.lo, t.a.hi}
+	}
+	if t.b != nil {
+		rb = rng{t.b.lo, t.b.hi}
+	}
+	if t.c != nil {
+		rc = rng{t.c.lo, t.c.hi}
+	}
+	r := rangeXfer(t, ra, rb, rc)
+	t.lo, t.hi = r.lo, r.hi
+}
+
+// rangeXfer computes a sound unsigned range of t from ranges of its children.
+func rangeXfer(t *Term, ra, rb, rc rng) rng {
 	m := mask(t.w)
-	t.lo, t.hi = 0, m
+	lo, hi := uint64(0), m
 	switch t.op {
 	case OpConst:
-		t.lo, t.hi = t.k, t.k
+		lo, hi = t.k, t.k
 	case OpZExt:
-		t.lo, t.hi = t.a.lo, t.a.hi
+		lo, hi = ra.lo, ra.hi
 	case OpExtract:
-		hi, lo := uint8(t.k>>8), uint8(t.k&0xff)
-		if lo == 0 && t.a.hi <= mask(hi+1) {
-			t.lo, t.hi = t.a.lo, t.a.hi
+		h, l := uint8(t.k>>8), uint8(t.k&0xff)
+		if l == 0 && ra.hi <= mask(h+1) {
+			lo, hi = ra.lo, ra.hi
 		}
 	case OpAdd:
-		h, c1 := bits.Add64(t.a.hi, t.b.hi, 0)
+		h, c1 := bits.Add64(ra.hi, rb.hi, 0)
 		if c1 == 0 && h <= m {
-			t.lo, t.hi = t.a.lo+t.b.lo, h
+			lo, hi = ra.lo+rb.lo, h
 		}
 	case OpSub:
-		if t.a.lo >= t.b.hi {
-			t.lo, t.hi = t.a.lo-t.b.hi, t.a.hi-t.b.lo
+		if ra.lo >= rb.hi {
+			lo, hi = ra.lo-rb.hi, ra.hi-rb.lo
 		}
 	case OpMul:
-		h, l := bits.Mul64(t.a.hi, t.b.hi)
+		h, l := bits.Mul64(ra.hi, rb.hi)
 		if h == 0 && l <= m {
-			t.lo, t.hi = t.a.lo*t.b.lo, l
+			lo, hi = ra.lo*rb.lo, l
 		}
 	case OpAnd:
-		t.hi = t.a.hi
-		if t.b.hi < t.hi {
-			t.hi = t.b.hi
+		hi = ra.hi
+		if rb.hi < hi {
+			hi = rb.hi
 		}
 	case OpOr, OpXor:
-		mx := t.a.hi
-		if t.b.hi > mx {
-			mx = t.b.hi
+		mx := ra.hi
+		if rb.hi > mx {
+			mx = rb.hi
 		}
 		n := bits.Len64(mx)
 		if n < 64 {
-			t.hi = (uint64(1) << n) - 1
+			hi = (uint64(1) << n) - 1
 		}
-		if t.hi > m {
-			t.hi = m
+		if hi > m {
+			hi = m
+		}
+		if t.op == OpOr {
+			lo = ra.lo
+			if rb.lo > lo {
+				lo = rb.lo
+			}
 		}
 	case OpLShr:
-		t.hi = t.a.hi
+		hi = ra.hi
 		if t.b.IsConst() {
 			if t.b.k >= uint64(t.w) {
-				t.lo, t.hi = 0, 0
+				lo, hi = 0, 0
 			} else {
-				t.lo, t.hi = t.a.lo>>t.b.k, t.a.hi>>t.b.k
+				lo, hi = ra.lo>>t.b.k, ra.hi>>t.b.k
 			}
 		}
 	case OpShl:
 		if t.b.IsConst() && t.b.k < 64 {
-			if bits.Len64(t.a.hi)+int(t.b.k) <= int(t.w) {
-				t.lo, t.hi = t.a.lo<<t.b.k, t.a.hi<<t.b.k
+			if bits.Len64(ra.hi)+int(t.b.k) <= int(t.w) {
+				lo, hi = ra.lo<<t.b.k, ra.hi<<t.b.k
 			}
 		}
 	case OpUDiv:
-		if t.b.lo > 0 {
-			t.lo, t.hi = t.a.lo/t.b.hi, t.a.hi/t.b.lo
-		} else {
-			t.hi = m
+		if rb.lo > 0 {
+			lo, hi = ra.lo/rb.hi, ra.hi/rb.lo
 		}
 	case OpURem:
-		if t.b.lo > 0 {
-			t.hi = t.b.hi - 1
-			if t.a.hi < t.hi {
-				t.hi = t.a.hi
+		if rb.lo > 0 {
+			hi = rb.hi - 1
+			if ra.hi < hi {
+				hi = ra.hi
 			}
 		}
 	case OpConcat:
-		t.lo = t.a.lo<<t.b.w | t.b.lo
-		t.hi = t.a.hi<<t.b.w | t.b.hi
+		lo = ra.lo<<t.b.w | rb.lo
+		hi = ra.hi<<t.b.w | rb.hi
 	case OpIte:
-		t.lo, t.hi = t.b.lo, t.b.hi
-		if t.c.lo < t.lo {
-			t.lo = t.c.lo
+		lo, hi = rb.lo, rb.hi
+		if rc.lo < lo {
+			lo = rc.lo
 		}
-		if t.c.hi > t.hi {
-			t.hi = t.c.hi
+		if rc.hi > hi {
+			hi = rc.hi
 		}
 	}
+	return rng{lo, hi}
 }
 
 // ---- constructors with simplification ----
